@@ -376,18 +376,11 @@ fn c14_command_mul_f32_value() {
     reach!();
 }
 
-//@ob fn="<Command as Div<f32>>::div" at=src/command.rs:116 clause="for every command (any kind, any payload x) and every divisor f (0, inf, NaN included): c / f has the same kind and value bit-identical to x / f" tier=thorough
-#[kani::proof]
-#[kani::solver(bin = "kissat")]
-fn c14_command_div_f32_value() {
-    let c: Command = kani::any();
-    let f: f32 = kani::any();
-    let (k, x) = raw_parts(c);
-    let (k2, y) = raw_parts(c / f);
-    assert!(k2 == k);
-    assert!(feq(y, x / f));
-    reach!();
-}
+// NOT in Kani: "value of c / f is bit-identical to f32::from(c) / f".  The spec has to recompute one f32 division and
+// SAT must prove two divider circuits equivalent: no result after 37 min (CaDiCaL) / 25 min (Kissat), also with a
+// concrete variant per call; cvc5 is excluded by the enum payload (DESIGN T7).  Left to the Verus `exact` unit
+// (DESIGN 5/C14: "V/x: Command + - * / value is the same f32 operator").  What Kani does prove about Div: the kind is
+// kept and it never panics (c14_command_scale_keeps_kind) and `/=` is exactly `/` (c14_command_div_assign_is_div).
 
 //@ob fn="<Command as MulAssign<f32>>::mul_assign" at=src/command.rs:144 clause="a *= f leaves exactly (a * f): proved with <Command as Mul<f32>>::mul replaced by an uninterpreted stand-in, so for every interpretation of the binary form"
 #[kani::proof]
